@@ -738,8 +738,15 @@ class Interp:
                 t = sub.run_function(d, b)
                 return t.retval or Const(None)
         # text pieces collected in a list
+        if isinstance(f, ast.Attribute) and f.attr in ("append", "extend") and isinstance(f.value, ast.Name) and isinstance(env.get(f.value.id), Const) and isinstance(env[f.value.id].v, list) \
+                and all(isinstance(x_, str) for x_ in env[f.value.id].v) and len(c.args) == 1:
+            # a list of lines started empty / with constant lines
+            env[f.value.id] = ListVal([Str([("lit", x_)]) for x_ in env[f.value.id].v])
         if isinstance(f, ast.Attribute) and f.attr in ("append", "extend") and isinstance(f.value, ast.Name) and isinstance(env.get(f.value.id), ListVal) and len(c.args) == 1:
             v = self.value(c.args[0], env)
+            if f.attr == "extend" and isinstance(v, Const) and isinstance(v.v, (list, tuple)) and all(isinstance(x_, str) for x_ in v.v):
+                env[f.value.id] = ListVal(env[f.value.id].items + [Str([("lit", x_)]) for x_ in v.v])
+                return Const(None)
             if f.attr == "append":
                 env[f.value.id] = ListVal(env[f.value.id].items + [to_str(v, src(c.args[0]))])
                 return Const(None)
@@ -780,7 +787,14 @@ class Interp:
         elif meth == "writelines":
             for a in c.args:
                 if isinstance(a, ast.Starred):
-                    raise AnalysisError("emit: writelines(*x) at codegen.py:%d not modelled" % c.lineno)
+                    lv = self.value(a.value, env) if isinstance(a.value, ast.Name) else None
+                    if isinstance(lv, Const) and isinstance(lv.v, (list, tuple)) and all(isinstance(x_, str) or x_ is None for x_ in lv.v):
+                        lv = ListVal([Str([("lit", x_)]) if x_ is not None else Const(None) for x_ in lv.v])
+                    if not isinstance(lv, ListVal):
+                        raise AnalysisError("emit: writelines(*x) at codegen.py:%d not modelled" % getattr(c, "_srcline", c.lineno))
+                    for it_ in lv.items:
+                        self.line_value(it_, a.value, c)
+                    continue
                 self.line(a, env, c)
         elif meth == "write_blanks":
             self.events.append(("BLANK", src(c.args[0]) if c.args else "1"))
@@ -796,6 +810,9 @@ class Interp:
 
     def line(self, a, env, c):
         v = self.value(a, env)
+        return self.line_value(v, a, c)
+
+    def line_value(self, v, a, c):
         if isinstance(v, Const) and v.v is None:
             self.events.append(("DEDENT", c))
             return
